@@ -182,6 +182,93 @@ func genC05(g *gen) {
 	}
 	sort.Strings(shapes)
 	g.line("Definition gen_shapes : list (string * list string) := [\n  %s].", strings.Join(shapes, ";\n  "))
+
+	// bounds: for every decoder, reader primitive and prefix helper, in source
+	// order, each condition that speaks about buffer lengths / offsets, each
+	// index or slice expression into a buffer, and each offset computation.
+	// An edit of an inner bounds check (which the primitive sequence does not
+	// show) changes this table.
+	var bounds []string
+	if frame != nil {
+		for _, d := range frame.Decls {
+			fd, ok := d.(*ast.FuncDecl)
+			if !ok || fd.Body == nil {
+				continue
+			}
+			name := fd.Name.Name
+			r := recvName(fd)
+			switch {
+			case r == "bufferReader":
+				name = "bufferReader." + name
+			case r == "" && (strings.HasPrefix(name, "Decode") || name == "addressLength" || name == "prefixLength"):
+			default:
+				continue
+			}
+			toks := boundsOf(fd)
+			if len(toks) == 0 {
+				continue
+			}
+			items := make([]string, len(toks))
+			for i, t := range toks {
+				items[i] = coqString(t)
+			}
+			bounds = append(bounds, fmt.Sprintf("(%s, [%s])", coqString(name), strings.Join(items, "; ")))
+		}
+	}
+	sort.Strings(bounds)
+	g.line("Definition gen_bounds : list (string * list string) := [\n  %s].", strings.Join(bounds, ";\n  "))
+}
+
+func oneLine(n ast.Node) string { return strings.Join(strings.Fields(src(n)), " ") }
+
+func mentionsBounds(t string) bool {
+	return strings.Contains(t, "len(") || strings.Contains(t, ".offset") || strings.Contains(t, "remaining()") || strings.Contains(t, "Offset")
+}
+
+// boundsOf lists, in source order, the bounds-relevant expressions of a function.
+func boundsOf(fd *ast.FuncDecl) []string {
+	var toks []string
+	isBuf := func(e ast.Expr) bool {
+		t := src(e)
+		return t == "buf" || t == "r.buf" || t == "prefix" || t == "fr.header" || strings.HasSuffix(t, ".buf")
+	}
+	ast.Inspect(fd.Body, func(n ast.Node) bool {
+		switch x := n.(type) {
+		case *ast.FuncLit:
+			return false
+		case *ast.IfStmt:
+			if t := oneLine(x.Cond); mentionsBounds(t) {
+				toks = append(toks, "if "+t)
+			}
+		case *ast.ForStmt:
+			if x.Cond != nil {
+				if t := oneLine(x.Cond); mentionsBounds(t) {
+					toks = append(toks, "for "+t)
+				}
+			}
+		case *ast.IndexExpr:
+			if isBuf(x.X) {
+				toks = append(toks, "idx "+oneLine(x))
+			}
+		case *ast.SliceExpr:
+			if isBuf(x.X) {
+				toks = append(toks, "slice "+oneLine(x))
+			}
+		case *ast.AssignStmt:
+			if len(x.Lhs) == 1 && len(x.Rhs) == 1 {
+				l, r := oneLine(x.Lhs[0]), oneLine(x.Rhs[0])
+				if strings.HasSuffix(l, ".offset") || (strings.Contains(r, ".offset") && !strings.Contains(r, "(")) || strings.HasSuffix(l, "Offset") {
+					toks = append(toks, "set "+l+" "+x.Tok.String()+" "+r)
+				}
+			}
+		case *ast.IncDecStmt:
+			if strings.HasSuffix(oneLine(x.X), ".offset") {
+				toks = append(toks, "set "+oneLine(x.X)+x.Tok.String())
+			}
+		}
+		return true
+	})
+	return toks
 }
 
 func collectConsts(f *ast.File, env map[string]int64) {
